@@ -478,6 +478,17 @@ def c11(case, impl):
             return "default_width32 changed more than the start-up call"
         if flag(case, 0) and len(diff) != 1:
             return "default_width32 did not change the start-up call"
+    # the string-size option declares only what the program does not declare itself: a prologue
+    # allocation line never repeats a declaration (BASIC09 refuses a second DIM of a variable)
+    alloc = [m.group(1) for m in (re.match(r"^DIM (\S+):STRING\[\d+\]$", l) for l in lines) if m]
+    if alloc:
+        try:
+            declared = [d[0] for d in out_decls(lines)]
+        except Exception:  # noqa: BLE001
+            declared = []
+        twice = [a for a in alloc if declared.count(a) > 1]
+        if twice:
+            return f"the string-size option adds a second declaration of {twice[0]}, which the program declares itself"
     # the default string size only changes declared string sizes
     for key in ("storage_32", "storage_77"):
         o = other(key)
